@@ -754,8 +754,11 @@ pub fn spec_from_ref(z: &RefZone) -> TzSpec {
 fn fails_same(bytes: &[u8], t: i64, nanos: u32, inv: &str, knobs: &Knobs) -> Option<Fail> {
     let z = tzref::parse_tzif(bytes).ok()?;
     let case = ZoneCase { label: "minimised".into(), source: "minimised", bytes: bytes.to_vec() };
+    // the same wrong offset shows as Z1 through the direct entry and as Z2 through Offset::Local:
+    // one class (a replay of the minimised file meets the direct entry first)
+    let class = |i: &str| if i == "Z2-local-offset" { "Z1-offset".to_string() } else { i.to_string() };
     match check_zone(&case, &z, &[t], &[nanos], knobs, &mut None) {
-        Err(f) if f.invariant == inv => Some(f),
+        Err(f) if class(f.invariant) == class(inv) => Some(f),
         _ => None,
     }
 }
